@@ -191,7 +191,9 @@ where
 
         let exec = Exec {
             core: core.clone(),
-            cap: Box::pin(tokio::time::sleep(Duration::from_millis(params.time_cap_ms))),
+            cap: Box::pin(tokio::time::sleep(Duration::from_millis(
+                params.time_cap_ms,
+            ))),
         };
         let exit = exec.await;
         // drop all tasks inside the runtime context (timers deregister cleanly)
@@ -277,7 +279,11 @@ impl Future for Exec {
             t.flag.flag.store(false, Ordering::SeqCst);
             t.polls += 1;
             t.polls_since_progress += 1;
-            (t.fut.take().expect("task future present"), t.waker.clone(), t.name.clone())
+            (
+                t.fut.take().expect("task future present"),
+                t.waker.clone(),
+                t.name.clone(),
+            )
         };
         core.trace(idx as u64 ^ 0x5151);
         core.steps.set(core.steps.get() + 1);
@@ -387,7 +393,9 @@ impl SimCore {
         if self.record_popped.get() {
             let t = self.now_ms();
             let order = self.next_order();
-            self.popped.borrow_mut().push((t, order, source, data.to_vec()));
+            self.popped
+                .borrow_mut()
+                .push((t, order, source, data.to_vec()));
         }
     }
 
